@@ -309,6 +309,154 @@ fn prune_non_relay_paths(paths: &mut FxHashMap<transports::Addr, PathState>) {
     paths.retain(|addr, _| !must_prune.contains(addr));
 }
 
+/// Verification hooks, compiled only with `--cfg iroh_verif`.
+///
+/// Lets an external harness build a [`RemotePathState`] holding synthetic paths of any
+/// status and drive the real methods on it.  Nothing here exists in a normal build.
+#[cfg(iroh_verif)]
+pub mod verif_hooks {
+    use std::{sync::Arc, time::Duration};
+
+    use n0_future::time::Instant;
+    use tokio::sync::oneshot;
+
+    use super::{PathState, PathStatus, RemotePathState, Source};
+    use crate::{
+        address_lookup::AddressLookupFailed,
+        socket::transports::Addr,
+    };
+
+    /// The crate-private `MAX_NON_RELAY_PATHS`.
+    pub const MAX_NON_RELAY_PATHS: usize = super::MAX_NON_RELAY_PATHS;
+    /// The crate-private `MAX_INACTIVE_NON_RELAY_PATHS`.
+    pub const MAX_INACTIVE_NON_RELAY_PATHS: usize = super::MAX_INACTIVE_NON_RELAY_PATHS;
+
+    /// Mirror of the crate-private `PathStatus`.
+    ///
+    /// The close time of an inactive path is given as the offset from the creation
+    /// instant of the [`PathSet`] it lives in.
+    #[derive(Debug, Clone, Copy, PartialEq, Eq, PartialOrd, Ord)]
+    pub enum Status {
+        /// `PathStatus::Open`
+        Open,
+        /// `PathStatus::Inactive(epoch + offset)`
+        Inactive(Duration),
+        /// `PathStatus::Unusable`
+        Unusable,
+        /// `PathStatus::Unknown`
+        Unknown,
+    }
+
+    /// A real `RemotePathState` plus the epoch that synthetic close times are relative to.
+    #[derive(Debug)]
+    pub struct PathSet {
+        state: RemotePathState,
+        epoch: Instant,
+    }
+
+    impl Default for PathSet {
+        fn default() -> Self {
+            Self::new()
+        }
+    }
+
+    impl PathSet {
+        /// An empty path set with default metrics.
+        pub fn new() -> Self {
+            Self {
+                state: RemotePathState::new(Arc::default()),
+                epoch: Instant::now(),
+            }
+        }
+
+        /// Stores `addr` with the given status directly in the map (no pruning, no
+        /// resolve notifications), replacing any earlier entry for `addr`.
+        pub fn set_path(&mut self, addr: Addr, status: Status) {
+            let status = match status {
+                Status::Open => PathStatus::Open,
+                Status::Inactive(offset) => PathStatus::Inactive(self.epoch + offset),
+                Status::Unusable => PathStatus::Unusable,
+                Status::Unknown => PathStatus::Unknown,
+            };
+            self.state.paths.insert(
+                addr,
+                PathState {
+                    sources: Default::default(),
+                    status,
+                },
+            );
+        }
+
+        /// All stored paths with their status, in map iteration order.
+        ///
+        /// Close times before the epoch are reported as offset zero.
+        pub fn paths(&self) -> Vec<(Addr, Status)> {
+            self.state
+                .paths
+                .iter()
+                .map(|(addr, state)| {
+                    let status = match state.status {
+                        PathStatus::Open => Status::Open,
+                        PathStatus::Inactive(t) => {
+                            Status::Inactive(t.saturating_duration_since(self.epoch))
+                        }
+                        PathStatus::Unusable => Status::Unusable,
+                        PathStatus::Unknown => Status::Unknown,
+                    };
+                    (addr.clone(), status)
+                })
+                .collect()
+        }
+
+        /// Number of stored paths.
+        pub fn len(&self) -> usize {
+            self.state.paths.len()
+        }
+
+        /// `RemotePathState::is_empty`
+        pub fn is_empty(&self) -> bool {
+            self.state.is_empty()
+        }
+
+        /// `RemotePathState::prune_paths`, i.e. `prune_non_relay_paths` on the stored map.
+        pub fn prune(&mut self) {
+            self.state.prune_paths();
+        }
+
+        /// `RemotePathState::insert_open_path` with `Source::Connection`.
+        pub fn insert_open_path(&mut self, addr: Addr) {
+            self.state.insert_open_path(addr, Source::Connection);
+        }
+
+        /// `RemotePathState::insert_multiple` with `Source::App`.
+        pub fn insert_multiple(&mut self, addrs: Vec<Addr>) {
+            self.state.insert_multiple(addrs.into_iter(), Source::App);
+        }
+
+        /// `RemotePathState::abandoned_path`
+        pub fn abandoned_path(&mut self, addr: &Addr) {
+            self.state.abandoned_path(addr);
+        }
+
+        /// `RemotePathState::resolve_remote`; returns the receiving end of the request.
+        pub fn resolve_remote(&mut self) -> oneshot::Receiver<Result<(), AddressLookupFailed>> {
+            let (tx, rx) = oneshot::channel();
+            self.state.resolve_remote(tx);
+            rx
+        }
+
+        /// `RemotePathState::resolve_requests_is_empty`
+        pub fn resolve_requests_is_empty(&self) -> bool {
+            self.state.resolve_requests_is_empty()
+        }
+
+        /// `RemotePathState::address_lookup_finished`
+        pub fn address_lookup_finished(&mut self, result: Result<(), AddressLookupFailed>) {
+            self.state.address_lookup_finished(result);
+        }
+    }
+}
+
 #[cfg(test)]
 mod tests {
     use std::{
